@@ -49,6 +49,36 @@ def run(prog):
                                 "key includes the polarity" if uses_pol else
                                 "clause literals are de-duplicated by a key that ignores the polarity: `x` and `!x` count as "
                                 "duplicates, so a tautological clause (x | !x | …) loses a literal and the formula changes"))
+    # the same loss through a container: a clause collected in a map from *variables* to polarities (or a set of
+    # variables) holds one literal per variable — the later of `x` and `!x` wins
+    for fn in prog.lib_fns:
+        if not any(m in fn.npath for m in ("repr::cnf", "repr::unit_prop", "repr::logical_expr")) or fn.name.startswith("test") \
+                or "::test" in fn.npath or not any(b["term"]["k"] == "call" for b in fn.blocks):
+            continue
+        if fn.impl_self not in ("repr::cnf::Cnf", "repr::logical_expr::LogicalExpr", "repr::unit_prop::SATSolver", "repr::unit_prop::UnitPropagate") and \
+                not any(fn.npath.startswith(x) for x in ("repr::cnf::Cnf::", "repr::logical_expr::LogicalExpr::")):
+            continue
+        for cs in fn.terms.calls:
+            if cs.callee.name != "insert" or len(cs.args) < 2:
+                continue
+            k = cs.callee.key() or ""
+            if not (("BTreeMap" in k or "HashMap" in k or "BTreeSet" in k or "HashSet" in k) and
+                    any(str(t).endswith("VarLabel") for t in cs.callee.targs[:1])):
+                continue
+            # ... whose contents become literals again
+            feeds = any(c2.callee.name == "new" and "Literal" in (c2.callee.key() or "") for g in [fn] + prog.children(fn) for c2 in g.terms.calls)
+            if not feeds:
+                continue
+            # a container made afresh for each item of a loop (one per clause), not a function-wide assignment map
+            per_item = any(c2.callee.name in ("new", "default", "with_capacity") and (c2.callee.key() or "").split("::<")[0] == k.split("::<")[0].rsplit("::", 1)[0] + "::" + c2.callee.name
+                           or (c2.callee.name in ("new", "default") and any(w in (c2.callee.key() or "") for w in ("BTreeMap", "HashMap", "BTreeSet", "HashSet")))
+                           for c2 in fn.terms.calls if any(c2.bb in body for body in fn.cfg.loop_headers.values()))
+            if not per_item:
+                continue
+            out.append(inst("CN", "%s:clause-as-variable-map" % fn.npath, VIOLATION, fn, cs.line,
+                            "the literals of a clause are collected in a container keyed by the *variable* (%s): it holds one "
+                            "literal per variable, so of `x` and `!x` only the later survives and a tautological clause becomes "
+                            "a constraint" % k.split("::")[-2] if "::" in k else k))
     if n < 2:
         raise CheckerError("CN: expected >= 2 clause de-duplication sites, found %d" % n)
     return out
